@@ -42,6 +42,11 @@ pub const NOT_SAMPLED_COLLECT_ID: usize = usize::MAX;
 thread_local! {
     static COMMAND_SENDER: UnsafeCell<Sender<CollectCommand>> = {
         let (tx, rx) = spsc::bounded(10240);
+        #[cfg(fastrace_verif)]
+        let (tx, rx) = {
+            let _: (Sender<CollectCommand>, Receiver<CollectCommand>) = (tx, rx);
+            spsc::bounded(crate::verif::ring_capacity())
+        };
         register_receiver(rx);
         UnsafeCell::new(tx)
     };
@@ -265,6 +270,9 @@ impl GlobalCollector {
         let submit_spans = &mut self.submit_spans;
         let stale_spans = &mut self.stale_spans;
 
+        #[cfg(fastrace_verif)]
+        crate::verif::yield_point(crate::verif::Point::DrainBegin);
+
         {
             SPSC_RXS.lock().retain_mut(|rx| {
                 loop {
@@ -285,6 +293,9 @@ impl GlobalCollector {
                 }
             });
         }
+
+        #[cfg(fastrace_verif)]
+        crate::verif::yield_point(crate::verif::Point::Process);
 
         // If the reporter is not set, global collectior only clears the channel and then dismiss
         // all messages.
@@ -391,6 +402,76 @@ impl GlobalCollector {
 
         self.reporter.as_mut().unwrap().report(committed_records);
     }
+}
+
+/// What the collector currently retains (verification hook).
+#[cfg(fastrace_verif)]
+#[derive(Debug, Clone, Default, PartialEq, Eq)]
+pub struct CollectorStats {
+    /// (collect id, buffered span collections, dangling buckets) per active collector
+    pub active: Vec<(usize, usize, usize)>,
+    /// registered command receivers
+    pub receivers: usize,
+}
+
+/// Installs the collector like `set_reporter` but without the background thread.
+#[cfg(fastrace_verif)]
+pub fn verif_install(reporter: impl Reporter, config: Config) {
+    let global_collector = GlobalCollector {
+        config,
+        reporter: Some(Box::new(reporter)),
+        active_collectors: HashMap::new(),
+        start_collects: vec![],
+        drop_collects: vec![],
+        commit_collects: vec![],
+        submit_spans: vec![],
+        stale_spans: vec![],
+    };
+    *GLOBAL_COLLECTOR.lock() = Some(global_collector);
+    REPORTER_READY.store(true, Ordering::Relaxed);
+}
+
+/// Runs one collector cycle on the calling thread.
+#[cfg(fastrace_verif)]
+pub fn verif_run_collector_cycle() {
+    if let Some(global_collector) = GLOBAL_COLLECTOR.lock().as_mut() {
+        global_collector.handle_commands();
+    }
+}
+
+#[cfg(fastrace_verif)]
+pub fn verif_collector_stats() -> CollectorStats {
+    let mut active: Vec<(usize, usize, usize)> = GLOBAL_COLLECTOR
+        .lock()
+        .as_ref()
+        .map(|c| {
+            c.active_collectors
+                .iter()
+                .map(|(id, a)| (*id, a.span_collections.len(), a.danglings.len()))
+                .collect()
+        })
+        .unwrap_or_default();
+    active.sort();
+    CollectorStats {
+        active,
+        receivers: SPSC_RXS.lock().len(),
+    }
+}
+
+/// Forgets the collector, every registered receiver and the collect id counter.
+#[cfg(fastrace_verif)]
+pub fn verif_reset() {
+    *GLOBAL_COLLECTOR.lock() = None;
+    SPSC_RXS.lock().clear();
+    NEXT_COLLECT_ID.store(0, Ordering::Relaxed);
+    REPORTER_READY.store(false, Ordering::Relaxed);
+}
+
+/// Creates and registers the calling thread's command channel now instead of at its first
+/// command.
+#[cfg(fastrace_verif)]
+pub fn verif_register_sender() {
+    COMMAND_SENDER.try_with(|_| ()).ok();
 }
 
 impl LocalSpansInner {
